@@ -25,14 +25,14 @@ const N_FAULTS: u64 = 9;
 
 fn streams(t: Tier) -> Vec<StreamDef> {
     // enumerated: k in 1..=4, fault kind per position in 0..=N_FAULTS (0 = none) -> (N+1)^4 * 4 upper bound
-    vec![st("enumerated", t.n(50_000, 50_000, 100, 50_000), true), st("sampled", t.n(40_000, 2_000_000, 60, 10_000), false), st("first_not_type", t.n(5_000, 200_000, 30, 2_000), false), st("many_records", t.n(96, 2000, 0, 96), false)]
+    vec![st("enumerated", t.n(50_000, 50_000, 100, 50_000), true), st("sampled", t.n(40_000, 2_000_000, 60, 10_000), false), st("first_not_type", t.n(5_000, 200_000, 30, 2_000), false), st("many_records", t.n(96, 2000, 0, 96), false), st("fault_counts", t.n(64, 1200, 0, 64), false)]
 }
 
 fn floors(t: Tier) -> Vec<(String, u64)> {
     if t == Tier::Miri {
         return vec![("judged".into(), 50)];
     }
-    let mut f: Vec<(String, u64)> = vec![("judged".into(), 30_000), ("expected.ok".into(), 1000), ("expected.err".into(), 20_000), ("errors.matched".into(), 30_000), ("multi_error_lists".into(), 5_000), ("zlb".into(), 10), ("stop_at_unusable_length".into(), 2000), ("many_records".into(), 50)];
+    let mut f: Vec<(String, u64)> = vec![("judged".into(), 30_000), ("expected.ok".into(), 1000), ("expected.err".into(), 20_000), ("errors.matched".into(), 30_000), ("multi_error_lists".into(), 5_000), ("zlb".into(), 10), ("stop_at_unusable_length".into(), 2000), ("many_records".into(), 50), ("fault_counts".into(), 30)];
     for k in 1..=N_FAULTS {
         f.push((format!("fault.{}", k), 500));
     }
@@ -303,6 +303,20 @@ fn run(ctx: &mut Ctx) {
                     recs.push(good(&mut ctx.rng, false));
                 }
             }
+            judge(ctx, recs);
+        }
+        "fault_counts" => {
+            // a chosen number of faulty records (the error list must have exactly that many entries)
+            let n = *ctx.rng.pick(&[254usize, 255, 256, 257, 511, 512, 513, 1_024, 4_096, 8_192]);
+            let mut recs = vec![good(&mut ctx.rng, true)];
+            let proto = faulty(&mut ctx.rng, 3);
+            for i in 0..n {
+                recs.push(Rec { bytes: proto.bytes.clone(), expect: proto.expect.clone(), value: None, stops: false, fault: 3 });
+                if i % 61 == 7 {
+                    recs.push(good(&mut ctx.rng, false));
+                }
+            }
+            ctx.rep.bucket("fault_counts");
             judge(ctx, recs);
         }
         "many_records" => {
